@@ -446,13 +446,35 @@ pub fn run(tier: Tier, seed: u64) -> i32 {
         });
         total.merge(st);
     }
+    // far beyond the enumerated scope: 70 000 lines inserted (blank, comment-only, CRLF) in front of
+    // the second row: every row keeps its values, the rows behind the insertion report a line that is
+    // larger by exactly that number
+    {
+        let script = vec![Step::Ans(vec![("Q".into(), V::Num(3)), ("i".into(), V::Num(2))])];
+        let head = "A B Q\n1 2 X\n";
+        let tail = "3 4 5\nloop(k,2)\n(k) C X\nend loop\nrepeat(2) 7 (Q) X\n";
+        let mut pad = String::new();
+        for j in 0..70_000 {
+            pad.push_str(if j % 3 == 0 { "# c\n" } else if j % 3 == 1 { "\r\n" } else { " \t\n" });
+        }
+        let a = behaviour_n(&format!("{head}{tail}"), &sigs, &script, 30);
+        let b = behaviour_n(&format!("{head}{pad}{tail}"), &sigs, &script, 30);
+        total.evals += 1;
+        total.nontrivial += 1;
+        total.witness("seventy_thousand_lines_inserted");
+        let shift = |rows: &[(usize, String)]| -> Vec<(usize, String)> { rows.iter().map(|(l, r)| (if *l > 2 { l + 70_000 } else { *l }, r.clone())).collect() };
+        if a.verdict != b.verdict || shift(&a.dynamic) != b.dynamic || shift(&a.stat) != b.stat {
+            let k = shift(&a.dynamic).iter().zip(b.dynamic.iter()).position(|(x, y)| x != y);
+            total.violation("line changes under [70000 inserted lines]", 1 << 59, format!("70000 blank / comment-only lines inserted in front of the second row\nverdict {} -> {}\nfirst differing dynamic row {k:?}: expected {:?}, got {:?}", a.verdict, b.verdict, k.and_then(|k| shift(&a.dynamic).get(k).cloned()), k.and_then(|k| b.dynamic.get(k))), || json!({"kind": "none", "text": "header, row, 70000 inserted lines, rows", "expected": [format!("{:?}", shift(&a.dynamic))], "observed": [format!("{:?}", b.dynamic)]}));
+        }
+    }
     let meta = CheckMeta {
         id: "C20",
         tier,
         seed,
         rule: "every program of the space (and two malformed variants of each) x every set of at most 2 layout deviations: each inter-token gap -> {two spaces, tab, ' \\r', '\\r ', tab-space-tab, nothing (only where the reference lexer still reads the same two tokens)}, indentation, trailing blank space, '#' comment appended to a line after the header, blank/comment line inserted anywhere after the header, CRLF on one line or all, no final newline, each literal -> every other radix spelling; plus long programs of 9..90 short rows under one deviation on one line / on every line / CRLF throughout; metamorphic comparison with the canonical layout; every rewriting is non-trivial".into(),
         assumptions: vec!["no reference semantics: only pairwise equality of verdict, rows (static and dynamic) and the vectors the driver was handed; which token pairs may be joined is decided by the reference lexer (refgrammar::lex)".into()],
-        required_witnesses: vec!["accepted_program", "rejected_program", "gap_removed", "blank_space_changed", "literal_in_another_radix", "comment_appended", "line_inserted", "crlf", "no_final_newline", "long_program", "rewritten_text_loaded_from_a_dig_document", "source_field_of_a_loaded_file_edited_then_loaded_again"],
+        required_witnesses: vec!["accepted_program", "rejected_program", "gap_removed", "blank_space_changed", "literal_in_another_radix", "comment_appended", "line_inserted", "crlf", "no_final_newline", "long_program", "seventy_thousand_lines_inserted", "rewritten_text_loaded_from_a_dig_document", "source_field_of_a_loaded_file_edited_then_loaded_again"],
         exhaustive_note: "all programs x all rewritings within the bounds".into(),
         e1: false,
     };
